@@ -148,8 +148,13 @@ def main(prop, spec, argv, seed, chk):
                         consts = {"RM": "{0, 1, 2, 3}", "RMFault": fault, "RMDead": dead, "MaxView": str(mv)}
                         consts.update(extra)
                         s = rng.randrange(1, 2**31 - 1)
+                        num = par["num"]
+                        if mv == 2 and aname == "none" and "deepnum" in par:
+                            # the largest fault-free space: violations that need two consecutive view changes showed up
+                            # only after ~0.5 M behaviours (seeded change C20c)
+                            num = par["deepnum"].get(key, par["deepnum"]["default"])
                         jobs.append({"model": key, "path": path, "invs": invs, "constraint": constraint, "consts": consts, "assign": aname,
-                                     "num": par["num"], "depth": par["depth"], "seed": s, "workers": par["workers"], "timeout": par["timeout"],
+                                     "num": num, "depth": par["depth"], "seed": s, "workers": par["workers"], "timeout": par["timeout"],
                                      "dir": os.path.join(base, "%s-mv%d-%s" % (key, mv, aname))})
                         if mv == 2:
                             jobs.append({"model": key, "path": path, "invs": invs, "constraint": constraint, "consts": consts, "assign": aname, "dump": True,
